@@ -2,8 +2,8 @@ package harness
 
 import (
 	"os"
-	"strconv"
 	"runtime"
+	"strconv"
 	"testing"
 )
 
